@@ -31,6 +31,12 @@ Definition compile_ok (c : compile_case) : bool :=
   pc_list_eqb (map (fun o => (o_path o, o_data o)) kept) gout && Bool.eqb err gerr.
 Definition check_compile := mismatches compile_ok.
 
+(* validateBuildOptions through the public API: (write, allow-overwrite, an
+   output on an input was refused) *)
+Definition allow_ok (c : bool * bool * bool) : bool :=
+  let '(w, a, refused) := c in Bool.eqb (negb (effective_allow (mkOpts w a false))) refused.
+Definition check_allow := mismatches allow_ok.
+
 (* ---- histories of one context on a real directory ----
    step: (external edits before the rebuild (physical path, new contents or None = removed),
           (errors when the write phase started, an on-end callback failed),
@@ -70,10 +76,11 @@ Definition hist_ok (c : hist_case) : bool :=
 Definition check_hist := mismatches hist_ok.
 
 (* the specification predicates on the observed trees (own = physical files
-   written by earlier rebuilds of the history).  Inputs are only required to
-   be safe for builds that succeed without symbolic links in play: the other
-   two situations are the refuted statements (Properties.v), evaluated by the
-   harness oracle on the real code and recorded as findings. *)
+   written by earlier rebuilds of the history).  For inputs the part that
+   holds is evaluated (never overwritten, without symbolic links in play);
+   deletion of an input by a rebuild and overwriting through a symbolic link
+   are the refuted statements (Properties.v), evaluated by the harness oracle
+   on the real code and recorded as findings. *)
 Fixpoint spec_steps (w a : bool) (links : list (path * path)) (before : fmap content) (own : list path)
          (scs : list step_case) : bool :=
   match scs with
@@ -83,7 +90,7 @@ Fixpoint spec_steps (w a : bool) (links : list (path * path)) (before : fmap con
     let o := mkObs (apply_edits before edits) after
                    (map (fun x => (phys (fst (fst x)), snd (fst x))) outs) ins failed w a own in
     only_reported_b o && all_reported_written_b o && failed_no_write_b o && single_valued_b o
-    && (failed || nonempty links || inputs_safe_b o)
+    && (nonempty links || inputs_not_overwritten_b o)
     && spec_steps w a links after (rewritten ++ own) r
   end.
 Definition spec_ok (c : hist_case) : bool :=
